@@ -168,4 +168,29 @@ theorem smRespParse_err {apdu : Bytes} {e : E} (h : smRespParse apdu = .error e)
     | (cases h <;> first | exact Or.inl rfl | exact Or.inr rfl | exact parse87_err (by assumption) | exact parse8E_err (by assumption))
     | split at h)
 
+theorem smCmdParse_ok_len {apdu : Bytes} {p : CmdParse} (h : smCmdParse apdu = .ok p) : 15 ≤ apdu.length := by
+  unfold smCmdParse at h
+  dsimp only at h
+  rw [cmdMin_eq] at h
+  by_cases hc : apdu.length < 15 ∨ (!smBit (apdu.headD 0)) = true
+  · rw [if_pos hc] at h; cases h
+  · have := not_or.mp hc; omega
+
+theorem smRespParse_ok_len {apdu : Bytes} {p : RespParse} (h : smRespParse apdu = .ok p) : 12 ≤ apdu.length := by
+  unfold smRespParse at h
+  dsimp only at h
+  rw [respMin_eq] at h
+  by_cases hc : apdu.length < 12
+  · rw [if_pos hc] at h; cases h
+  · omega
+
+theorem take4_of_len {apdu : Bytes} (h : 4 ≤ apdu.length) : ∃ a b c d, apdu.take 4 = [a, b, c, d] := by
+  match apdu, h with
+  | a :: b :: c :: d :: t, _ => exact ⟨a, b, c, d, rfl⟩
+
+theorem last2_of_len {apdu : Bytes} (h : 2 ≤ apdu.length) : ∃ a b, apdu.drop (apdu.length - 2) = [a, b] := by
+  have hl : (apdu.drop (apdu.length - 2)).length = 2 := by simp; omega
+  match hd : apdu.drop (apdu.length - 2), hl with
+  | [a, b], _ => exact ⟨a, b, rfl⟩
+
 end Bee2V.C17
